@@ -1773,6 +1773,14 @@ func (e *SpecEnv) ghostRead(g *GhostDecl, v Val, depth int) (Val, error) {
 			}
 		}
 	}
+	if c.Mode == ModeInt && g.Name == "spos" && e.facts != nil && !e.deriving["send"] {
+		// reader invariant: the position never passes the end
+		if sg, ok := c.W.Specs.Ghosts["send"]; ok {
+			if sv, err := e.ghostRead(sg, v, depth); err == nil {
+				*e.facts = append(*e.facts, "(<= "+res+" "+sv.T+")")
+			}
+		}
+	}
 	if c.Mode == ModeInt && (g.Val == "mathint" || g.Val == "int") && (g.Name == "accepted" || g.Name == "wrapped" || g.Name == "spos" || g.Name == "send") && e.facts != nil {
 		// stated assumption: byte counters of readers/writers stay in [0, 2^62]
 		*e.facts = append(*e.facts, "(and (<= 0 "+res+") (<= "+res+" 4611686018427387904))")
